@@ -127,7 +127,9 @@ class RegularizedEvolution(Search):
                 parent_sample = max(samples, key=lambda x: x[1])[0]
 
                 child_sample = parent_sample.copy()
-                active_hyperparameter_names = list(
+                # get_active_hyperparameters returns a set: sort the names so that the seeded
+                # choice below does not depend on the hash seed of the process
+                active_hyperparameter_names = sorted(
                     space.get_active_hyperparameters(
                         deactivate_inactive_hyperparameters(child_sample, space)
                     )
